@@ -8,7 +8,7 @@
 (*             with every failure point the drivers can induce by a real     *)
 (*             input and keeps the applicable pairs.                         *)
 EXTENDS LaunchSteps, TLC, Json
-CONSTANTS C04Pairs, C07Bases
+CONSTANTS C04Pairs, C07Bases, C04Seq
 
 SiteOf(p) == p \div 512
 RowOf(p) == p % 512
@@ -80,6 +80,20 @@ CasesOf(b) ==
                 ELSE {})
 C07Cases == UNION { CasesOf(b) : b \in C07Bases \cup GateBases \cup CrashBases }
 
+\* Container-sequence family (C04 through container.Environment.Execve): Execve calls with DIFFERENT option
+\* records run back to back on ONE pre-forked environment; every program must start in the state of ITS OWN
+\* record whatever ran before.  Record index 0..23: seccomp filter none / f1 (six instructions) / f2 (four
+\* instructions with zero-valued fields), RLimits given, Env given, SyncAfterExec.
+\* C04Seq = set of pos*32 + index chosen by the orchestrator (consecutive positions = the pairs it wants);
+\* SeqGate is the fixed prefix run in every tier: everything set -> nothing set -> f2 -> f1 -> f2 with limits ->
+\* nothing -> f1 -> nothing.
+MkCOpt(k) == [sec |-> (CASE k % 3 = 0 -> "none" [] k % 3 = 1 -> "f1" [] OTHER -> "f2"),
+              rl |-> Bit(k \div 3, 0), env |-> Bit(k \div 3, 1), after |-> Bit(k \div 3, 2)]
+SeqGate == <<22, 0, 2, 1, 5, 0, 1, 0>>
+SeqCases == IF C04Pairs = {} THEN {}
+            ELSE { [pos |-> i, copt |-> MkCOpt(SeqGate[i])] : i \in DOMAIN SeqGate }
+                 \cup { [pos |-> Len(SeqGate) + (q \div 32), copt |-> MkCOpt(q % 32)] : q \in C04Seq }
+ASSUME ndJsonSerialize("c04seq.ndjson", SetToSeq(SeqCases))
 ASSUME ndJsonSerialize("c04cases.ndjson", SetToSeq(C04Cases))
 ASSUME ndJsonSerialize("c07cases.ndjson", SetToSeq(C07Cases))
 ASSUME PrintT(<<"generated", Cardinality(C04Cases), Cardinality(C07Cases)>>)
